@@ -335,10 +335,22 @@ def check_unit(pid, unit, tier, known):
     res = dict(unit=unit['name'], extract=reports, jobs=[], known_lines=[], violations=[], nloops=nloops,
                obligations=0, discharged=0, contract_obligations=0, samples=[], excluded_classes=[])
     loop_steps = set()
+    # one CBMC job per function under contract; the jobs of a unit are independent and run concurrently
+    with cf.ThreadPoolExecutor(max_workers=int(os.environ.get('VERIF_FN_JOBS', '4'))) as fex:
+        futA = {fn: fex.submit(cbmc_job, unit, cfile, outdir, 'A', [], tier, fn) for fn in fns}
+        jobsA = {}
+        first_err = None
+        for fn in fns:
+            try:
+                jobsA[fn] = futA[fn].result()
+            except (Undecided, X.ExtractionError) as e:
+                first_err = first_err or e
+        if first_err:
+            raise first_err
     for fn in fns:
         opens = [k for k in known if k['property'] == pid and k['unit'] == unit['name'] and k['status'] == 'open'
                  and k.get('function', fn) == fn]
-        jobA = cbmc_job(unit, cfile, outdir, 'A', [], tier, fn)
+        jobA = jobsA[fn]
         res['jobs'].append(jobA)
         canA, oblA = classify(jobA['results'], unit)
         _sanity(unit, jobA, canA, oblA, fn)
